@@ -9,7 +9,7 @@ SEED=$(readlink -f "$1")
 ID=$(basename "$SEED")
 WT=/tmp/confirm_$ID
 export CARGO_NET_OFFLINE=true
-export CARGO_TARGET_DIR=/verif/.cache/target-confirm
+export CARGO_TARGET_DIR=${CONFIRM_TARGET:-/verif/.cache/target-confirm}
 git -C /repo worktree remove --force "$WT" >/dev/null 2>&1
 git -C /repo worktree add --detach "$WT" HEAD >/dev/null 2>&1 || { echo "cannot create worktree"; exit 2; }
 cleanup() { git -C /repo worktree remove --force "$WT" >/dev/null 2>&1; }
